@@ -114,6 +114,13 @@ CLAIMED = {
          "and enber from the working tree are run on each; TLC validates the printed fields, the enber round trip and the exit-with-diagnostic "
          "contract on damaged input.",
          "TLA+ TLV forest model + TLC-enumerated forests and mutants + trace validation of the tools (sanitizer build)"),
+ "C15": ("exploration", "7 C15",
+         "MC_Deep.tla writes adversarial inputs in closed form (segments): d-fold nesting of recursive types in every syntax, nested constructed strings, "
+         "maximal length prefixes with no data, zero-width elements with maximal counts; the invariant DeepIsEncoding ties the closed forms to the "
+         "reference encoders for small d. TLC enumerates depth x stack limit x syntax; the driver decodes each on an 8 MiB stack with the link-time "
+         "allocator ledger recording the peak heap; the trace specification accepts only a returned call (no fatal signal / timeout) with peak heap <= "
+         "256 n + 1 MiB. Stack use itself is observed through the process status, not measured.",
+         "TLA+ closed-form adversarial inputs + TLC enumeration + trace validation of termination / heap bound"),
 }
 
 checks = []
